@@ -135,7 +135,7 @@ def run(rep: Report, rng, tier: str, known: dict, search: bool = False) -> None:
 def evidence(rep: Report) -> None:
     write_evidence(
         rep,
-        rule="one battery per run (60 quick / 400 thorough expressions over up to 5 variable names, each with evaluation, 3 variables x {Partial.at, LocatedDifferential.component, early Differential.at.component, Partial.as_expression, early Differential component as_expression}, _normalize, bare-number entries), executed in fresh interpreters for every (PYTHONHASHSEED, permutation) in 3x3 (quick) / 16x6 thinned to ~40 (thorough); permutation = order of variable creation and of the point's coordinates; all result lists must be identical; distinct_nontrivial = distinct result strings of the reference process; plus expressions with two variables whose partials are equal expressions spelled differently (int / float constants), printed forms of points over spellable and unspellable names (written in one fixed order), the variable given as interned str, run-time str, Variable",
+        rule="one battery per run (60 quick / 400 thorough expressions over up to 5 variable names, each with evaluation, 3 variables x {Partial.at, LocatedDifferential.component, early Differential.at.component, Partial.as_expression, early Differential component as_expression}, _normalize, bare-number entries), executed in fresh interpreters for every (PYTHONHASHSEED, permutation) in 3x3 (quick) / 16x6 thinned to ~40 (thorough); permutation = order of variable creation and of the point's coordinates; all result lists must be identical; distinct_nontrivial = distinct result strings of the reference process; plus expressions with two variables whose partials are equal expressions spelled differently (int / float constants), printed forms of points over spellable and unspellable names (written in one fixed order), the variable given as interned str, run-time str, Variable; everything the library logs during a battery case (level and text) is compared as part of the outcome; 2-3 sums of 260-400 products over 3-5 names whose simplification exhausts the step budget (returned expression by digest, logged warnings verbatim)",
         trusted=common.TRUSTED + ["CPython is deterministic apart from str hashing"],
         assumptions=["interpreter determinism is exercised, not proved"],
     )
